@@ -28,6 +28,9 @@ Arguments last_opt : simpl never.
 Arguments fresh_block : simpl never.
 Arguments bwrite : simpl never.
 
+(* the generated files register their definitions here, for [autounfold] *)
+Create HintDb arenagen discriminated.
+
 (* ---------------- syntax ---------------- *)
 
 Inductive field :=
@@ -63,7 +66,9 @@ Inductive rexpr :=
 | RErr (k : err)                                   (* Err(LassoError::new(LassoErrorKind::k)) *)
 | RNum (e : expr)
 | RBool (c : bexpr)
-| RUtf8 (t : string).                              (* core::str::from_utf8_unchecked(t), t a raw slice *)
+| RUtf8 (t : string)                               (* core::str::from_utf8_unchecked(t), t a raw slice *)
+| RNone | RSome (e : expr)                         (* the Option<usize> of a fetch_update closure *)
+| ROkNum (e : expr) | RErrUnit.                    (* Ok(e) / Err(()) of try_inc_length: Result<usize, ()> *)
 
 Inductive stmt :=
 | SSkip
@@ -203,6 +208,8 @@ Definition wc_pre (cap : N) : Prop := 0 < cap /\ cap <= isize_max.
 
 Inductive bkval := BkOwned (b : block) | BkLast | BkMoved.
 
+(* NB: the interpreters take the state apart by pattern matching and rebuild it from the parts (never from
+   projections of the whole): symbolic evaluation by [cbn] then stays linear in the length of the program. *)
 Record state := mkState {
   st_arena : arena;
   st_nums : list (string * N);
@@ -210,45 +217,38 @@ Record state := mkState {
   st_refs : list (string * sref);
   st_ok : Prop }.
 
-Inductive retval := RVUnit | RVNum (n : N) | RVBool (b : bool) | RVRef (r : sref) | RVErr (k : err).
+Inductive retval :=
+| RVUnit | RVNum (n : N) | RVBool (b : bool) | RVRef (r : sref) | RVErr (k : err) | RVOpt (o : option N)
+| RVErrUnit.
 Inductive outcome := ONormal (st : state) | OReturn (a : arena) (v : retval) (ok : Prop) | OStuck.
 
-Definition add_ok (q : Prop) (st : state) : state :=
-  mkState (st_arena st) (st_nums st) (st_bks st) (st_refs st) (st_ok st /\ q).
-Definition set_arena (a : arena) (st : state) : state :=
-  mkState a (st_nums st) (st_bks st) (st_refs st) (st_ok st).
-Definition set_bks (l : list (string * bkval)) (st : state) : state :=
-  mkState (st_arena st) (st_nums st) l (st_refs st) (st_ok st).
-
-Definition block_of (st : state) (x : string) : option block :=
-  match lookup x (st_bks st) with
+Definition block_of (a : arena) (bks : list (string * bkval)) (x : string) : option block :=
+  match lookup x bks with
   | Some (BkOwned b) => Some b
-  | Some BkLast => last_opt (blocks (st_arena st))
+  | Some BkLast => last_opt (blocks a)
   | _ => None
   end.
 
 Definition str_empty (s : str) : bool := match s with [] => true | _ => false end.
 
-Definition arena_cx (s : str) (st : state) : ectx :=
-  let a := st_arena st in
+Definition arena_cx (s : str) (a : arena) (nums : list (string * N)) (bks : list (string * bkval)) : ectx :=
   mkEctx (fun f => match f with
                    | FUsage => Some (usage a) | FMaxMem => Some (limit a)
                    | FBucketCap => Some (bucket_cap a)
                    | FBucketsLen => Some (N.of_nat (List.length (blocks a)))
                    | _ => None end)
-         (fun x => lookup x (st_nums st))
+         (fun x => lookup x nums)
          (slen s) (str_empty s)
-         (fun x => match block_of st x with
+         (fun x => match block_of a bks x with
                    | Some b => Some (free_spec b, free_pre b)
                    | None => None end)
          None.
 
 (* leaving the scope of a branch: the names it introduced are dropped *)
-Definition leave_scope (st0 : state) (o : outcome) : outcome :=
+Definition leave_scope (n1 n2 n3 : nat) (o : outcome) : outcome :=
   match o with
-  | ONormal st => ONormal (mkState (st_arena st) (keep_last (List.length (st_nums st0)) (st_nums st))
-                                   (keep_last (List.length (st_bks st0)) (st_bks st))
-                                   (keep_last (List.length (st_refs st0)) (st_refs st)) (st_ok st))
+  | ONormal (mkState a nums bks refs ok) =>
+      ONormal (mkState a (keep_last n1 nums) (keep_last n2 bks) (keep_last n3 refs) ok)
   | o => o
   end.
 
@@ -271,95 +271,101 @@ Definition eval_ret (cx : ectx) (refs : list (string * sref)) (r : rexpr) : M re
   | RNum e => bind (eval cx e) (fun n => ret (RVNum n))
   | RBool c => bind (evalb cx c) (fun b => ret (RVBool b))
   | RUtf8 _ => None
+  | RNone => ret (RVOpt None)
+  | RSome e => bind (eval cx e) (fun n => ret (RVOpt (Some n)))
+  | ROkNum e => bind (eval cx e) (fun n => ret (RVNum n))
+  | RErrUnit => ret RVErrUnit
   end.
 
 Fixpoint exec (s : str) (p : stmt) (st : state) : outcome :=
-  let cx := arena_cx s st in
-  let a := st_arena st in
+  let '(mkState a nums bks refs ok) := st in
+  let cx := arena_cx s a nums bks in
   match p with
-  | SSkip => ONormal st
-  | SSeq p q => match exec s p st with ONormal st' => exec s q st' | o => o end
+  | SSkip => ONormal (mkState a nums bks refs ok)
+  | SSeq p q => match exec s p (mkState a nums bks refs ok) with ONormal st' => exec s q st' | o => o end
   | SLet x e =>
       match eval cx e with
-      | Some (n, q) => ONormal (mkState a ((x, n) :: st_nums st) (st_bks st) (st_refs st) (st_ok st /\ q))
+      | Some (n, q) => ONormal (mkState a ((x, n) :: nums) bks refs (ok /\ q))
       | None => OStuck end
   | SAssert c =>
       match evalb cx c with
-      | Some (v, q) => ONormal (add_ok (q /\ v = true) st)
+      | Some (v, q) => ONormal (mkState a nums bks refs (ok /\ q /\ v = true))
       | None => OStuck end
   | SIf c t e =>
       match evalb cx c with
-      | Some (v, q) => leave_scope st (if v then exec s t (add_ok q st) else exec s e (add_ok q st))
+      | Some (v, q) =>
+          leave_scope (List.length nums) (List.length bks) (List.length refs)
+            (if v then exec s t (mkState a nums bks refs (ok /\ q)) else exec s e (mkState a nums bks refs (ok /\ q)))
       | None => OStuck end
   | SReturn r =>
-      match eval_ret cx (st_refs st) r with
-      | Some (v, q) => OReturn a v (st_ok st /\ q)
+      match eval_ret cx refs r with
+      | Some (v, q) => OReturn a v (ok /\ q)
       | None => OStuck end
   | SSetField f e =>
       match eval cx e with
       | Some (n, q) => match set_field a f n with
-                       | Some a' => ONormal (add_ok q (set_arena a' st))
+                       | Some a' => ONormal (mkState a' nums bks refs (ok /\ q))
                        | None => OStuck end
       | None => OStuck end
   | SSetFieldNZ f z =>
       match f, eval_nz cx z with
       | FBucketCap, Some (inl n, q) =>
-          ONormal (add_ok q (set_arena (mkArena (blocks a) n (usage a) (limit a) (next_bid a)) st))
-      | FBucketCap, Some (inr k, q) => OReturn a (RVErr k) (st_ok st /\ q)
+          ONormal (mkState (mkArena (blocks a) n (usage a) (limit a) (next_bid a)) nums bks refs (ok /\ q))
+      | FBucketCap, Some (inr k, q) => OReturn a (RVErr k) (ok /\ q)
       | _, _ => OStuck end
   | SAllocQ e =>
       match eval cx e with
       | Some (n, q) =>
           match alloc_spec a n with
-          | (a', Ok _) => ONormal (add_ok (q /\ alloc_pre a n) (set_arena a' st))
-          | (a', Err k) => OReturn a' (RVErr k) (st_ok st /\ q /\ alloc_pre a n)
+          | (a', Ok _) => ONormal (mkState a' nums bks refs (ok /\ q /\ alloc_pre a n))
+          | (a', Err k) => OReturn a' (RVErr k) (ok /\ q /\ alloc_pre a n)
           end
       | None => OStuck end
   | SNewBucketQ x z =>
       match eval_nz cx z with
       | Some (inl cap, q) =>
           ONormal (mkState (mkArena (blocks a) (bucket_cap a) (usage a) (limit a) (next_bid a + 1))
-                           (st_nums st) ((x, BkOwned (fresh_block (next_bid a) cap)) :: st_bks st)
-                           (st_refs st) (st_ok st /\ q /\ wc_pre cap))
-      | Some (inr k, q) => OReturn a (RVErr k) (st_ok st /\ q)
+                           nums ((x, BkOwned (fresh_block (next_bid a) cap)) :: bks) refs
+                           (ok /\ q /\ wc_pre cap))
+      | Some (inr k, q) => OReturn a (RVErr k) (ok /\ q)
       | None => OStuck end
   | SPushSlice r x =>
-      match lookup x (st_bks st) with
+      match lookup x bks with
       | Some (BkOwned b) =>
           let (b', rf) := push_slice b s in
-          ONormal (mkState a (st_nums st) (update x (BkOwned b') (st_bks st)) ((r, rf) :: st_refs st)
-                           (st_ok st /\ push_pre b s))
+          ONormal (mkState a nums (update x (BkOwned b') bks) ((r, rf) :: refs) (ok /\ push_pre b s))
       | Some BkLast =>
           match last_opt (blocks a) with
           | Some b =>
               let (b', rf) := push_slice b s in
-              ONormal (mkState (with_blocks a (set_last b' (blocks a))) (st_nums st) (st_bks st)
-                               ((r, rf) :: st_refs st) (st_ok st /\ push_pre b s))
+              ONormal (mkState (with_blocks a (set_last b' (blocks a))) nums bks ((r, rf) :: refs)
+                               (ok /\ push_pre b s))
           | None => OStuck end
       | _ => OStuck end
   | SVecPush x =>
-      match lookup x (st_bks st) with
+      match lookup x bks with
       | Some (BkOwned b) =>
-          ONormal (set_bks (update x BkMoved (st_bks st)) (set_arena (with_blocks a (blocks a ++ [b])) st))
+          ONormal (mkState (with_blocks a (blocks a ++ [b])) nums (update x BkMoved bks) refs ok)
       | _ => OStuck end
   | SVecInsert i x =>
-      match eval cx i, lookup x (st_bks st) with
+      match eval cx i, lookup x bks with
       | Some (n, q), Some (BkOwned b) =>     (* Vec::insert panics if n > len *)
-          ONormal (add_ok (q /\ n <= N.of_nat (List.length (blocks a)))
-                     (set_bks (update x BkMoved (st_bks st))
-                        (set_arena (with_blocks a (insert_at (N.to_nat n) b (blocks a))) st)))
+          ONormal (mkState (with_blocks a (insert_at (N.to_nat n) b (blocks a))) nums (update x BkMoved bks) refs
+                           (ok /\ q /\ n <= N.of_nat (List.length (blocks a))))
       | _, _ => OStuck end
   | SIfLastFilter pn c bn t e =>
       match last_opt (blocks a) with
-      | None => leave_scope st (exec s e st)
+      | None => leave_scope (List.length nums) (List.length bks) (List.length refs)
+                  (exec s e (mkState a nums bks refs ok))
       | Some _ =>
-          match evalb (arena_cx s (set_bks ((pn, BkLast) :: st_bks st) st)) c with
+          match evalb (arena_cx s a nums ((pn, BkLast) :: bks)) c with
           | Some (v, q) =>
-              leave_scope st (if v then exec s t (add_ok q (set_bks ((bn, BkLast) :: st_bks st) st))
-                              else exec s e (add_ok q st))
+              leave_scope (List.length nums) (List.length bks) (List.length refs)
+                (if v then exec s t (mkState a nums ((bn, BkLast) :: bks) refs (ok /\ q))
+                 else exec s e (mkState a nums bks refs (ok /\ q)))
           | None => OStuck end
       end
-  | SForEachBucketClear => ONormal (set_arena (with_blocks a (map block_clear (blocks a))) st)
+  | SForEachBucketClear => ONormal (mkState (with_blocks a (map block_clear (blocks a))) nums bks refs ok)
   | SLetPtrAdd _ _ | SLetRawSlice _ _ _ | SCopyFromSlice _ => OStuck
   end.
 
@@ -413,19 +419,14 @@ Record bstate := mkB {
 
 Inductive boutcome := BNormal (st : bstate) | BReturn (b : block) (v : retval) (ok : Prop) | BStuck.
 
-Definition block_cx (s : str) (st : bstate) : ectx :=
-  let b := b_blk st in
+Definition block_cx (s : str) (b : block) (nums : list (string * N)) : ectx :=
   mkEctx (fun f => match f with FIndex => Some (bused b) | FCapacity => Some (bcap b) | _ => None end)
-         (fun x => lookup x (b_nums st)) (slen s) (str_empty s) (fun _ => None) (Some (is_full_spec b)).
+         (fun x => lookup x nums) (slen s) (str_empty s) (fun _ => None) (Some (is_full_spec b)).
 
-Definition badd_ok (q : Prop) (st : bstate) : bstate :=
-  mkB (b_blk st) (b_nums st) (b_ptrs st) (b_slices st) (b_ok st /\ q).
-
-Definition bleave_scope (st0 : bstate) (o : boutcome) : boutcome :=
+Definition bleave_scope (n1 n2 n3 : nat) (o : boutcome) : boutcome :=
   match o with
-  | BNormal st => BNormal (mkB (b_blk st) (keep_last (List.length (b_nums st0)) (b_nums st))
-                               (keep_last (List.length (b_ptrs st0)) (b_ptrs st))
-                               (keep_last (List.length (b_slices st0)) (b_slices st)) (b_ok st))
+  | BNormal (mkB b nums ptrs slices ok) =>
+      BNormal (mkB b (keep_last n1 nums) (keep_last n2 ptrs) (keep_last n3 slices) ok)
   | o => o
   end.
 
@@ -433,53 +434,51 @@ Definition bleave_scope (st0 : bstate) (o : boutcome) : boutcome :=
 Definition alloc_size (b : block) : N := N.of_nat (List.length (bdata b)).
 
 Fixpoint execb (s : str) (p : stmt) (st : bstate) : boutcome :=
-  let cx := block_cx s st in
-  let b := b_blk st in
+  let '(mkB b nums ptrs slices ok) := st in
+  let cx := block_cx s b nums in
   match p with
-  | SSkip => BNormal st
-  | SSeq p q => match execb s p st with BNormal st' => execb s q st' | o => o end
+  | SSkip => BNormal (mkB b nums ptrs slices ok)
+  | SSeq p q => match execb s p (mkB b nums ptrs slices ok) with BNormal st' => execb s q st' | o => o end
   | SLet x e =>
       match eval cx e with
-      | Some (n, q) => BNormal (mkB b ((x, n) :: b_nums st) (b_ptrs st) (b_slices st) (b_ok st /\ q))
+      | Some (n, q) => BNormal (mkB b ((x, n) :: nums) ptrs slices (ok /\ q))
       | None => BStuck end
   | SAssert c =>
       match evalb cx c with
-      | Some (v, q) => BNormal (badd_ok (q /\ v = true) st)
+      | Some (v, q) => BNormal (mkB b nums ptrs slices (ok /\ q /\ v = true))
       | None => BStuck end
   | SIf c t e =>
       match evalb cx c with
-      | Some (v, q) => bleave_scope st (if v then execb s t (badd_ok q st) else execb s e (badd_ok q st))
+      | Some (v, q) =>
+          bleave_scope (List.length nums) (List.length ptrs) (List.length slices)
+            (if v then execb s t (mkB b nums ptrs slices (ok /\ q)) else execb s e (mkB b nums ptrs slices (ok /\ q)))
       | None => BStuck end
   | SReturn (RUtf8 t) =>
-      match lookup t (b_slices st) with
-      | Some (off, len) => BReturn b (RVRef (RArena (bid b) off len)) (b_ok st)
+      match lookup t slices with
+      | Some (off, len) => BReturn b (RVRef (RArena (bid b) off len)) ok
       | None => BStuck end
   | SReturn r =>
       match eval_ret cx [] r with
-      | Some (v, q) => BReturn b v (b_ok st /\ q)
+      | Some (v, q) => BReturn b v (ok /\ q)
       | None => BStuck end
   | SSetField FIndex e =>
       match eval cx e with
-      | Some (n, q) => BNormal (mkB (mkBlock (bid b) (bcap b) n (bdata b)) (b_nums st) (b_ptrs st) (b_slices st)
-                                    (b_ok st /\ q))
+      | Some (n, q) => BNormal (mkB (mkBlock (bid b) (bcap b) n (bdata b)) nums ptrs slices (ok /\ q))
       | None => BStuck end
   | SLetPtrAdd pn e =>      (* ptr.add(e) must stay inside the allocation (one past the end allowed) *)
       match eval cx e with
-      | Some (n, q) => BNormal (mkB b (b_nums st) ((pn, n) :: b_ptrs st) (b_slices st)
-                                    (b_ok st /\ q /\ n <= alloc_size b))
+      | Some (n, q) => BNormal (mkB b nums ((pn, n) :: ptrs) slices (ok /\ q /\ n <= alloc_size b))
       | None => BStuck end
   | SLetRawSlice t pn e =>  (* from_raw_parts_mut(p, e): the e bytes at p must lie inside the allocation *)
-      match lookup pn (b_ptrs st), eval cx e with
+      match lookup pn ptrs, eval cx e with
       | Some off, Some (len, q) =>
-          BNormal (mkB b (b_nums st) (b_ptrs st) ((t, (off, len)) :: b_slices st)
-                       (b_ok st /\ q /\ off + len <= alloc_size b))
+          BNormal (mkB b nums ptrs ((t, (off, len)) :: slices) (ok /\ q /\ off + len <= alloc_size b))
       | _, _ => BStuck end
   | SCopyFromSlice t =>     (* copy_from_slice panics unless the lengths agree *)
-      match lookup t (b_slices st) with
+      match lookup t slices with
       | Some (off, len) =>
           BNormal (mkB (mkBlock (bid b) (bcap b) (bused b) (bwrite (bdata b) (N.to_nat off) s))
-                       (b_nums st) (b_ptrs st) (b_slices st)
-                       (b_ok st /\ len = slen s /\ off + len <= alloc_size b))
+                       nums ptrs slices (ok /\ len = slen s /\ off + len <= alloc_size b))
       | None => BStuck end
   | _ => BStuck
   end.
@@ -553,6 +552,12 @@ Definition block_of_list (l : list stmt) : stmt := fold_right SSeq SSkip l.
 Definition arena_typed (a : arena) : Prop :=
   usage a <= usize_max /\ limit a <= usize_max /\ bucket_cap a <= usize_max /\
   Forall (fun b => bcap b <= usize_max) (blocks a).
+
+(* the domain of store_str's obligations: representable sizes, stated as weakly as the proofs allow.
+   (usage + 2*cap and usage + len are computed in usize; 2*cap and len become Layout sizes) *)
+Definition store_dom (a : arena) (s : str) : Prop :=
+  usage a + 2 * bucket_cap a <= usize_max /\ usage a + slen s <= usize_max /\
+  2 * bucket_cap a <= isize_max /\ slen s <= isize_max.
 
 Lemma last_opt_In {A} (l : list A) b : last_opt l = Some b -> In b l.
 Proof.
